@@ -221,3 +221,24 @@ Example C06_read_from_failing_source_instance :
   | inl _ => False
   end.
 Proof. vm_compute. repeat split; reflexivity. Qed.
+
+(* ---- tie C: reserve, w_header_size and ceil_pow2 are what wsutil/writer.go says now
+   (gen/Translated.v is translated from the Go source on every run): every state byte,
+   every non-negative int n (Go int = 64 bit; ceilPowerOfTwo: n < 2^62, where n++ does
+   not overflow). *)
+Require Import Translated TranslatedOk.
+
+Theorem C06_source_reserve : forall s n, s < 256 -> n < 2 ^ 63 ->
+  g_wsutil_reserve (Z.of_N s) (Z.of_N n) = Z.of_N (reserve s n).
+Proof. exact xl_wsutil_reserve. Qed.
+Print Assumptions C06_source_reserve.
+
+Theorem C06_source_header_size : forall s n, s < 256 -> n < 2 ^ 63 ->
+  g_wsutil_headerSize (Z.of_N s) (Z.of_N n) = Z.of_N (w_header_size s n).
+Proof. exact xl_wsutil_headerSize. Qed.
+Print Assumptions C06_source_header_size.
+
+Theorem C06_source_ceil_pow2 : forall n, n < 2 ^ 62 ->
+  g_wsutil_ceilPowerOfTwo (Z.of_N n) = Z.of_N (ceil_pow2 n).
+Proof. exact xl_wsutil_ceilPowerOfTwo. Qed.
+Print Assumptions C06_source_ceil_pow2.
